@@ -128,7 +128,19 @@ pub fn c01_vault_invariant(l: &Ledger, w: &StdWorld) -> Result<(), String> {
         let ps = p.state(&c);
         claim_a += bu(ps.fee_owed_a as u128);
         claim_b += bu(ps.fee_owed_b as u128);
-        if ps.liquidity > 0 {
+        if ps.liquidity > 0 && ps.tick_lower_index >= ps.tick_upper_index {
+            // not a range: "the tokens returned by withdrawing all of its liquidity at the current price" is then whatever the
+            // program pays for it — measured by a real withdrawal on a copy, which must also succeed
+            let mut d = c.clone();
+            let pr = &p.at(&d);
+            let (a0, b0) = (balance(&d, &w.pool.vault_a), balance(&d, &w.pool.vault_b));
+            let o = svm::process(&mut d, &world::ix_decrease(pr, &w.lp, ps.liquidity, 0, 0, !w.pool.is_v1_capable()));
+            if !o.ok() {
+                return Err(format!("position {}..{} (not a valid range) holds liquidity {} that cannot be withdrawn: {}", ps.tick_lower_index, ps.tick_upper_index, ps.liquidity, o.short()));
+            }
+            claim_a += bu((a0 - balance(&d, &w.pool.vault_a)) as u128);
+            claim_b += bu((b0 - balance(&d, &w.pool.vault_b)) as u128);
+        } else if ps.liquidity > 0 {
             let (qa, qb) = position_amounts_exact(
                 pool.sqrt_price,
                 sqrt_price_from_tick_index(ps.tick_lower_index),
